@@ -80,7 +80,7 @@ def build(case, with_m):
                     pv = fsenc(w["orig"])
                 elif w["orig"].startswith(base.rstrip("/") + "/"):
                     pv = fsenc(w["orig"][len(base.rstrip("/")) + 1:])
-            good = oracle.make_info(pv, "2000-01-01T00:01:40")
+            good = oracle.make_info(pv, "1999-12-31T23:59:59")  # never equal to a well-formed entry's date
             pay = {"p": td + "/files/" + nm, "t": "f", "c": "malformed's payload"}
             if k == "non_trashinfo":
                 tw.nodes.append({"p": td + "/info/" + nm + ".txt", "t": "f", "c": "hello"})
